@@ -61,7 +61,7 @@ def gen_program(rng, typ, L):
             ops.append(('M', rng.randrange(3), rng.randrange(3)))
         else:
             a, b = rng.sample(range(3), 2)
-            ops.append(('K', a, b))
+            ops.append((rng.choice(['K', 'KF']), a, b))
     return ops
 
 
@@ -94,7 +94,7 @@ def gen_hist_program(rng, typ, L):
             ops.append(('HZ', rng.randrange(3), None))
         else:
             a, b = rng.sample(range(3), 2)
-            ops.append(('K', a, b))
+            ops.append((rng.choice(['K', 'KF']), a, b))
     return ops, edges
 
 
@@ -118,7 +118,7 @@ def special_program(rng, types):
                 ops.append(('M', rng.randrange(3), rng.randrange(3)))
             else:
                 a, b = rng.sample(range(3), 2)
-                ops.append(('K', a, b))
+                ops.append((rng.choice(['K', 'KF']), a, b))
         return typ, ops, None
     if kind == 1:
         typ = rng.choice([t for t in types if t in HISTS])
@@ -175,8 +175,8 @@ def emit(c, typ, ops, k, fmt, mode, edges=None):
         elif code in ('M', 'H+'):
             c.op(code, op[1], op[2])
             counts[op[1]] += counts[op[2]]
-        elif code == 'K':
-            c.op('K', op[1], op[2])
+        elif code in ('K', 'KF'):
+            c.op(code, op[1], op[2])
             counts[op[1]] = counts[op[2]]
         elif code == 'H*':
             c.op('H*', op[1], op[2])
